@@ -188,7 +188,10 @@ def _check(prog, rep):
     r2.check(len(wr) == 1 and wr[0][0] == "call" and wr[0][1] == "Result::unwrap" and wr[0][2][0][1] == "String::from_utf8", "write-back",
              "*text is replaced by the rebuilt string", "", "*text is assigned %s" % [D(x) for x in wr])
     lemmas.load_all()
-    for l in ("C11.R1", "C06.R2", "C07.R1"):
+    # both sides must see the same words: Word::from puts exactly the trailing ' ' run into `whitespace` (C11.R3) - the
+    # bytes fill_inplace keeps and wrap drops -, and wrap's side passes them unchanged through split_words (C12.R1)
+    # and the reassembly (C01.R1)
+    for l in ("C11.R1", "C11.R3", "C06.R2", "C07.R1", "C12.R1", "C01.R1"):
         st = lemmas.status(prog, l)
         if st == "ok":
             rep.ok("C17.R0", "crate", "lemma %s holds in this run" % l, "evaluated: ok", nontrivial=False)
